@@ -948,6 +948,70 @@ def check_user_container_viewed_once(ctx, F):
     ctx.extra['user_container_queries'] = n
 
 
+def check_generic_shift_by_precision(ctx, F):
+    """`T::one() << PRECISION` on a generic word type whose width may EQUAL the precision (the static assertions only give
+    `PRECISION <= T::BITS` for the probability and word types) overflows at that edge: a panic in debug builds, a shift by zero in
+    release builds - the closing cdf entry then becomes 1 and the last symbol gets probability zero inside a NonZero.  The library
+    has `wrapping_pow2` for the total mass; a plain shift by PRECISION is accepted only behind a decision that excludes the edge
+    (`PRECISION != T::BITS`, `PRECISION < T::BITS`) on every path to it.  Shifts of the coder state (at least two words wide, so
+    always wider than the precision) are outside the rule."""
+    n = 0
+    for b in F.bodies:
+        if b.promoted is not None or '::tests::' in b.defpath or b.defpath.startswith(('pybindings', '<pybindings')) or b.dk not in ('Fn', 'AssocFn', 'Closure'):
+            continue
+        sites = {}
+        for blk, t in b.calls():
+            c = callee(t) or {}
+            if not (c.get('def') or '').endswith('ops::Shl::shl') or len(t['args']) != 2 or not c.get('args'):
+                continue
+            amt = t['args'][1]
+            if not (amt.get('k') == 'const' and amt.get('param')):
+                continue
+            a0 = c['args'][0]
+            ty = F.types[a0['ty']] if isinstance(a0, dict) and 'ty' in a0 else None
+            if not ty or ty.get('k') != 'param' or ty.get('name') == 'State':
+                continue
+            sites[blk] = (ty.get('name'), amt['param'], t['span']['at'].split('-')[0])
+        if not sites:
+            continue
+        try:
+            _, paths = rules.evaluate(b)
+        except Exception:
+            paths = None
+        for blk, (tname, param, where) in sorted(sites.items()):
+            n += 1
+            key = 'R9/generic-shift-by-precision/%s/%s' % (b.defpath, tname)
+            role = 'a shift of a word-sized value by PRECISION is excluded at PRECISION == BITS'
+            ctx.touch(b)
+            if paths is None:
+                ctx.unresolved('R9', role, b.defpath, 'too many paths', key=key)
+                continue
+            verdict = None
+            for r in paths:
+                for i, e in enumerate(r.events):
+                    if e['kind'] != 'call' or e.get('block') != blk or not e['callee'].endswith('ops::Shl::shl'):
+                        continue
+                    ok = False
+                    for tt, v, _ in r.preds[:rules.preds_before(r, i)]:
+                        if isinstance(v, tuple) or tt[0] != 'bin' or tt[1] not in ('Eq', 'Ne', 'Lt', 'Le', 'Gt', 'Ge') or ('c', param) not in (tt[2], tt[3]):
+                            continue
+                        other = tt[3] if tt[2] == ('c', param) else tt[2]
+                        if not (other[0] == 'c' and other[1].endswith('BITS') and tname in other[1]):
+                            continue
+                        op = tt[1] if v else {'Eq': 'Ne', 'Ne': 'Eq', 'Lt': 'Ge', 'Le': 'Gt', 'Gt': 'Le', 'Ge': 'Lt'}[tt[1]]
+                        P_left = tt[2] == ('c', param)
+                        if op == 'Ne' or (P_left and op == 'Lt') or (not P_left and op == 'Gt'):
+                            ok = True
+                    verdict = (verdict is None or verdict) and ok
+            if verdict is None:
+                ctx.unresolved('R9', role, b.defpath, 'the shift is on no enumerated path', key=key)
+            elif verdict:
+                ctx.ok('R9', role, b.defpath, '`%s::one() << %s` only behind `%s != %s::BITS`' % (tname, param, param, tname), key=key)
+            else:
+                ctx.bad('R9', role, b.defpath, 'a value of the generic type %s is shifted left by %s with nothing on the path excluding %s == %s::BITS: there the shift overflows - a panic in debug builds, a shift by zero in release builds (a total mass of 1 instead of 2^PRECISION, i.e. a last symbol of probability zero); `wrapping_pow2` is the spelling that is right at the edge' % (tname, param, param, tname), key=key, loc=where)
+    ctx.extra['generic_shifts_by_precision'] = n
+
+
 def check_size_hint_arithmetic(ctx, F):
     """`Iterator::size_hint` of a caller's iterator is an arbitrary number: every unbounded std iterator (`0..`, `repeat`, `cycle`)
     reports a lower bound of usize::MAX.  An overflow-checked `+` / `*` on it panics in debug builds and wraps in release builds,
@@ -1093,6 +1157,7 @@ def run(ctx):
     check_validators_fetch_once(ctx, F)
     check_const_shift_bounded(ctx, F)
     check_size_hint_arithmetic(ctx, F)
+    check_generic_shift_by_precision(ctx, F)
     check_user_container_viewed_once(ctx, F)
     import props.C05 as c05
     c05.check_cdf_search_extent(ctx, F)      # the TRUSTED-DATA rows of the searched decoders say 'the search lands in 1..len-1': true only for a search that excludes the last entry
